@@ -51,6 +51,8 @@ val concat : 'a1 list list -> 'a1 list
 
 val map : ('a1 -> 'a2) -> 'a1 list -> 'a2 list
 
+val flat_map : ('a1 -> 'a2 list) -> 'a1 list -> 'a2 list
+
 val fold_left : ('a1 -> 'a2 -> 'a1) -> 'a2 list -> 'a1 -> 'a1
 
 val fold_right : ('a2 -> 'a1 -> 'a1) -> 'a1 -> 'a2 list -> 'a1
@@ -517,6 +519,48 @@ val no_wait_while_holding : (blk * tid) list -> gev list -> bool
 
 val olc_trace_ok : (blk * lstate) list -> gev list -> bool
 
+type blk0 = nat
+
+type pev =
+| PRLock of blk0 * bool * z
+| PCheck of blk0 * bool * z
+| PUpgrade of blk0 * bool * z
+| PUnlock of blk0
+| PObsolete of blk0
+| PLoad of blk0
+| PStore of blk0
+| PAlloc of blk0
+
+val root_blk : blk0
+
+val beq : nat -> nat -> bool
+
+val last_attempt_aux : pev list -> pev list -> pev list
+
+val last_attempt : pev list -> pev list
+
+val validates : blk0 -> pev -> bool
+
+val validated_later : blk0 -> pev list -> bool
+
+type sets = blk0 list * blk0 list
+
+val upd0 : sets -> pev -> sets
+
+val loads_covered : sets -> pev list -> bool
+
+val coupled : pev list -> bool
+
+val held_at_end : pev list -> blk0 list
+
+val allocs : pev list -> blk0 list
+
+val versions_own : (blk0 * z) list -> pev list -> bool
+
+val op_ok : pev list -> bool
+
+val scan_ok : pev list -> bool
+
 type tid0 = nat
 
 type ptr = z
@@ -591,10 +635,13 @@ type lop =
 | LGet of z list
 | LInsert of z list * z list
 | LRemove of z list
+| LNext of z list * bool * z list option
+| LPrev of z list * bool * z list option
 
 type lres =
 | LVal of z list option
 | LBool of bool
+| LEntry of (z list * z list) option
 
 type call = { c_op : lop; c_res : lres; c_inv : nat; c_ret : nat }
 
@@ -603,6 +650,14 @@ type smap = (z list * z list) list
 val s_get : z list -> smap -> z list option
 
 val s_del : z list -> smap -> smap
+
+val in_next : z list -> bool -> z list option -> z list -> bool
+
+val in_prev : z list -> bool -> z list option -> z list -> bool
+
+val s_min : (z list -> bool) -> smap -> (z list * z list) option
+
+val s_max : (z list -> bool) -> smap -> (z list * z list) option
 
 val s_apply : smap -> lop -> smap * lres
 
